@@ -20,7 +20,8 @@ def gen(rng, tier):
     n = 220 if tier == 'quick' else 5000
     cases = []
     for _ in range(n):
-        o = progs.Opts(open_leaves=0.5 if rng.random() < 0.3 else 0.0, control=False, cut=False, builtins=False, deep=rng.random() < 0.1)
+        o = progs.Opts(open_leaves=0.5 if rng.random() < 0.3 else 0.0, control=False, cut=False, builtins=False, deep=rng.random() < 0.1,
+                       churn=rng.choice([0.0, 0.0, 0.3, 0.6]))
         p = progs.gen_program(rng, o)
         adv = rng.random() < 0.4
         if adv:
